@@ -2,7 +2,7 @@
 //! worker processes, attributes crashes and hangs to the in-flight case, confirms them in a
 //! solo process, classifies violations against known_findings.txt and writes the evidence.
 
-use crate::prop::{CaseOut, Ctx, Prop, Tier, Violation};
+use crate::prop::{CaseOut, Tier, Violation};
 use crate::props;
 use crate::rng;
 use serde_json::json;
